@@ -335,10 +335,16 @@ impl NodeRecordStore {
         };
 
         spawn(async move {
+            #[cfg(maidsafe_safe_network_verif)]
+            let verif_tag = file_path.display().to_string();
+            #[cfg(maidsafe_safe_network_verif)]
+            crate::verif_hooks::gate("flush", verif_tag.clone()).await;
             if let Ok(mut file) = fs::File::create(file_path) {
                 let mut serialiser = rmp_serde::encode::Serializer::new(&mut file);
                 let _ = historic_quoting_metrics.serialize(&mut serialiser);
             }
+            #[cfg(maidsafe_safe_network_verif)]
+            crate::verif_hooks::gate_done("flush", verif_tag);
         });
     }
 
@@ -696,6 +702,10 @@ impl NodeRecordStore {
 
         let record_key2 = record_key.clone();
         spawn(async move {
+            #[cfg(maidsafe_safe_network_verif)]
+            let verif_tag = file_path.display().to_string();
+            #[cfg(maidsafe_safe_network_verif)]
+            crate::verif_hooks::gate("write", verif_tag.clone()).await;
             let key = r.key.clone();
             if let Some(bytes) = Self::prepare_record_bytes(r, encryption_details) {
                 let cmd = match fs::write(&file_path, bytes) {
@@ -715,6 +725,8 @@ impl NodeRecordStore {
 
                 send_local_swarm_cmd(cloned_cmd_sender, cmd);
             }
+            #[cfg(maidsafe_safe_network_verif)]
+            crate::verif_hooks::gate_done("write", verif_tag);
         });
 
         Ok(())
@@ -901,6 +913,10 @@ impl RecordStore for NodeRecordStore {
         let file_path = self.config.storage_dir.join(&filename);
 
         let _handle = spawn(async move {
+            #[cfg(maidsafe_safe_network_verif)]
+            let verif_tag = file_path.display().to_string();
+            #[cfg(maidsafe_safe_network_verif)]
+            crate::verif_hooks::gate("delete", verif_tag.clone()).await;
             match fs::remove_file(file_path) {
                 Ok(_) => {
                     info!("Removed record from disk! filename: {filename}");
@@ -909,6 +925,8 @@ impl RecordStore for NodeRecordStore {
                     error!("Error while removing file. filename: {filename}, error: {err:?}");
                 }
             }
+            #[cfg(maidsafe_safe_network_verif)]
+            crate::verif_hooks::gate_done("delete", verif_tag);
         });
     }
 
@@ -934,6 +952,24 @@ impl RecordStore for NodeRecordStore {
 
     fn remove_provider(&mut self, _key: &Key, _provider: &PeerId) {
         // ProviderRecords are not used currently
+    }
+}
+
+/// Read-only views of private state for the conformance harness.
+#[cfg(maidsafe_safe_network_verif)]
+impl NodeRecordStore {
+    /// Keys in the distance index, closest first
+    pub fn verif_records_by_distance(&self) -> Vec<Key> {
+        self.records_by_distance.values().cloned().collect()
+    }
+
+    /// Keys currently in the read cache
+    pub fn verif_cache_keys(&self) -> Vec<Key> {
+        self.records_cache.records_cache.keys().cloned().collect()
+    }
+
+    pub fn verif_received_payment_count(&self) -> usize {
+        self.received_payment_count
     }
 }
 
